@@ -3,9 +3,11 @@
 (* issues any valid call that stays within capacity.                           *)
 EXTENDS MemAlloc
 
+VARIABLE nops    \* number of calls so far (bounds the history)
+
 CONSTANTS Pids,      \* processes
           MaxN,      \* largest buffer (pages)
-          MaxBufs,   \* number of buffers ever allocated (the history itself is unbounded)
+          MaxOps,    \* history length
           PickAny,   \* TRUE: any free page may be obtained; FALSE: the lowest ones (smaller state space)
           CpuPages, GpuPages, NGpus   \* platform: CPU, NGpus GPUs, one unified device over all GPUs
 
@@ -17,7 +19,7 @@ MCDevs ==
 
 Init ==
   /\ devs = MCDevs /\ out = {} /\ limbo = {} /\ nextV = <<>> /\ vown = <<>> /\ pt = <<>>
-  /\ bufs = <<>> /\ held = {} /\ devUsed = {} /\ crashed = FALSE
+  /\ bufs = <<>> /\ held = {} /\ devUsed = {} /\ crashed = FALSE /\ nops = 0
 
 AllPages == 1..(CpuPages + NGpus * GpuPages)
 \* pages the implementation can obtain: a page in limbo is treated as leaked when that deviation is switched on
@@ -26,6 +28,7 @@ Picks(S, n) ==
   IF PickAny THEN {s \in [1..n -> S] : Injective(s)}
   ELSE LET low == {p \in S : Cardinality({q \in S : q < p}) < n} IN
        {s \in [1..n -> low] : \A i, j \in 1..n : i < j => s[i] < s[j]}
+KthFree(S, k) == CHOOSE p \in S : Cardinality({q \in S : q < p}) = k - 1
 Gpus == {d \in DevIds : Dev(d).type = "gpu"}
 GpuSeqs == {s \in UNION {[1..k -> Gpus] : k \in 1..2} : Injective(s)}
 
@@ -39,7 +42,7 @@ DistPlacement(n, gs) ==
   [i \in 1..n |-> IF (i - 1) < per * use THEN gs[((i - 1) \div per) + 1] ELSE gs[last + 1]]
 
 DoAlloc(pid, d, n) ==
-  /\ Len(bufs) < MaxBufs /\ WithinCap(Targets(d), n)
+  /\ WithinCap(Targets(d), n)
   /\ IF Cardinality(FreeOn(Targets(d))) >= n
      THEN \E ps \in Picks(FreeOn(Targets(d)), n) : Alloc(pid, d, ps)
      ELSE OutOfMemory(Targets(d), n)
@@ -59,15 +62,14 @@ DoRemap(pid, v, ds) ==
       dv == IF "RemapRecordsGivenDeviceID" \in Deviations /\ \E i \in 1..n : ~Actual(ds[i])
             THEN {"RemapRecordsGivenDeviceID"} ELSE {} IN
   /\ \A t \in T : LiveOn(t) + n <= Dev(t).n
-  /\ IF \E ps \in [1..n -> AllPages] : Injective(ps) /\ \A i \in 1..n : ps[i] \in FreeOn(Targets(ds[i]))
-     THEN \E ps \in [1..n -> AllPages] :
-            /\ Injective(ps) /\ \A i \in 1..n : ps[i] \in FreeOn(Targets(ds[i]))
-            /\ (PickAny \/ \A i \in 1..n : \A q \in FreeOn(Targets(ds[i])) : q < ps[i] => q \in Range(ps))
-            /\ Remap(pid, v, ds, ps, dv)
+  /\ IF \A i \in 1..n : Cardinality(FreeOn(Targets(ds[i]))) >= Cardinality({j \in 1..n : ds[j] = ds[i]})
+     THEN IF PickAny /\ \A i \in 1..n : ds[i] = ds[1]
+          THEN \E ps \in Picks(FreeOn(Targets(ds[1])), n) : Remap(pid, v, ds, ps, dv)
+          ELSE Remap(pid, v, ds, [i \in 1..n |-> KthFree(FreeOn(Targets(ds[i])), Cardinality({j \in 1..i : ds[j] = ds[i]}))], dv)
      ELSE \E t \in T : OutOfMemory({t}, n)
 
 MCNext ==
-  /\ ~crashed
+  /\ ~crashed /\ nops < MaxOps /\ nops' = nops + 1
   /\ \/ \E pid \in Pids, d \in DevIds, n \in 1..MaxN : DoAlloc(pid, d, n)
      \/ \E b \in LiveBufs : DoFree(b)
      \/ \E b \in LiveBufs, d \in DevIds : \E off \in 0..(bufs[b].n - 1) : \E n \in 1..(bufs[b].n - off) :
@@ -85,5 +87,5 @@ MCNext ==
                                           /\ PrepareMigration(bufs[b].pid, bufs[b].v + off, g, p)
              ELSE OutOfMemory({g}, 1)
 
-MCSpec == Init /\ [][MCNext]_vars
+MCSpec == Init /\ [][MCNext]_<<vars, nops>>
 =============================================================================
